@@ -33,7 +33,7 @@ func init() {
 		"Mux.DropConn", "Mux.RegisterConn", "Mux.RegisterService", "Mux.registerService", "state.addConnHandler",
 		"MaxReceiveMessageSizeOption", "MaxSendMessageSizeOption",
 		// codec and stream interface implementations looked up by name lists
-		"CodecJSON.ReadNext", "CodecProto.ReadNext", "codecHTTPBody.ReadNext",
+		"CodecJSON.ReadNext", "CodecProto.ReadNext", "CodecProto.WriteNext", "codecHTTPBody.ReadNext",
 		"serverTransportStream.SendHeader", "serverTransportStream.SetHeader", "serverTransportStream.SetTrailer",
 		"streamGRPC.Context", "streamGRPC.SetHeader", "streamGRPC.SetTrailer",
 		"streamHTTP.Context", "streamHTTP.SendHeader", "streamHTTP.SetHeader", "streamHTTP.SetTrailer",
